@@ -122,8 +122,12 @@ def bounded_replay(p):
     return False, p.get('what')
 
 META = dict(
-    level='exploration',
-    technique='bounded run-time contract with an independent reference codec (record walker, decoder, encoder)',
-    text='library writer output walked by an independent Fortran-record parser/decoder; reference-encoded files read by the library; both directions.',
-    note='bounded only.',
-    assumptions=[], explanation='')
+    level='other',
+    technique='record primitives proved by pyvc (Asc2Int/Int2Asc inverse, writeline markers, RecordFile.next stepping); whole-file layout by bounded '
+              'run-time contract with an independent reference codec (record walker, decoder, encoder)',
+    text='Proved for all inputs: Asc2Int maps each character to the 4-byte name cell and Int2Asc inverts it for every code 0..255; writeline brackets every payload '
+         'with two equal markers of struct.calcsize(fmt); RecordFile.next advances by record_size + 8. Bounded: output of the library writers for generated uamiv / '
+         'lateral_boundary / met files is walked by an independent Fortran-record parser and decoded (header counts, grid, time intervals, end flags); '
+         'reference-encoded files are read by the library; both directions.',
+    note='the writers themselves (numpy structured arrays written with tobytes) are outside the deductive subset: their layout is bounded only.',
+    assumptions=[], explanation='mixed: proof obligations for the record primitives + bounded reference-codec comparison')
